@@ -4,6 +4,7 @@ import (
 	"context"
 	"errors"
 	"fmt"
+	"strconv"
 	"strings"
 	textTemplate "text/template"
 	"text/template/parse"
@@ -110,7 +111,7 @@ func (c TemplateCheck) Check(ctx context.Context, entry discovery.Entry, _ []dis
 	data := promTemplate.AlertTemplateData(map[string]string{}, map[string]string{}, "", promql.Sample{})
 
 	for _, label := range entry.Labels().Items {
-		if err := checkTemplateSyntax(ctx, label.Key.Value, label.Value.Value, data); err != nil {
+		if err := checkTemplateSyntax(ctx, label.Key.Value, "__alert_"+entry.Rule.AlertingRule.Alert.Value, label.Value.Value, data); err != nil {
 			problems = append(problems, Problem{
 				Anchor: AnchorAfter,
 				Lines: diags.LineRange{
@@ -158,7 +159,7 @@ func (c TemplateCheck) Check(ctx context.Context, entry discovery.Entry, _ []dis
 
 	if entry.Rule.AlertingRule.Annotations != nil {
 		for _, annotation := range entry.Rule.AlertingRule.Annotations.Items {
-			if err := checkTemplateSyntax(ctx, annotation.Key.Value, annotation.Value.Value, data); err != nil {
+			if err := checkTemplateSyntax(ctx, annotation.Key.Value, "__alert_"+entry.Rule.AlertingRule.Alert.Value, annotation.Value.Value, data); err != nil {
 				problems = append(problems, Problem{
 					Anchor: AnchorAfter,
 					Lines: diags.LineRange{
@@ -277,11 +278,13 @@ func maybeExpandError(err error) error {
 	return err
 }
 
-func checkTemplateSyntax(ctx context.Context, name, text string, data any) error {
+// Prometheus parses every label and annotation of an alert as a template named "__alert_<alert name>",
+// a template that defines a block of that name is rejected. Errors are reported using the name of the field.
+func checkTemplateSyntax(ctx context.Context, name, tmplName, text string, data any) error {
 	tmpl := promTemplate.NewTemplateExpander(
 		ctx,
 		strings.Join(append(templateDefs, text), ""),
-		name,
+		tmplName,
 		data,
 		model.Time(timestamp.FromTime(time.Now())),
 		queryFunc,
@@ -289,13 +292,17 @@ func checkTemplateSyntax(ctx context.Context, name, text string, data any) error
 		nil,
 	)
 
+	fieldName := func(err error) error {
+		return errors.New(strings.ReplaceAll(err.Error(), strconv.Quote(tmplName), strconv.Quote(name)))
+	}
+
 	if err := tmpl.ParseTest(); err != nil {
-		return normalizeTemplateError(name, maybeExpandError(err))
+		return fieldName(normalizeTemplateError(tmplName, maybeExpandError(err)))
 	}
 
 	_, err := tmpl.Expand()
 	if err != nil {
-		return normalizeTemplateError(name, maybeExpandError(err))
+		return fieldName(normalizeTemplateError(tmplName, maybeExpandError(err)))
 	}
 
 	return nil
